@@ -290,7 +290,10 @@ def wait_rules(ctx, prog):
     I = new_interp(prog, overrides={"now": o_now})
     p = {x["name"]: ("v", F.gdid(x["did"])) for x in F.params}
     entries = []
-    for tclass, tv in (("finite", I.nonneg()), ("infinite", fs(INF)), ("until-deadline", fs(DL))):
+    SEVEN = 7
+    if SEVEN not in I.Kset:
+        raise AnalysisBroken("C08.T5e: 7 is not a tracked constant")
+    for tclass, tv in (("finite", I.nonneg()), ("finite=7", fs(SEVEN)), ("infinite", fs(INF)), ("until-deadline", fs(DL))):
         for dclass, dv in (("none", fs(INF)), ("set", frozenset(x for x in I.TOP_INT if x != INF))):
             for st in A.entry_states(prog, I, F, ("RUN",), combos="min")[:1]:
                 st = st.copy()
@@ -319,11 +322,17 @@ def wait_rules(ctx, prog):
             ok = ok and INF not in tv
         if st.mon.get("tclass") == "finite":
             ok = ok and INF not in tv
+        if st.mon.get("tclass") == "finite=7":
+            ctx.ob("C08.T5e", "reproc_wait [timeout 7 ms, deadline %s]: timeout given to poll(2)" % st.mon.get("dclass"),
+                   "a finite timeout reaches the OS unchanged - the wait is neither shortened (the timeout error would come early) nor "
+                   "stretched, whatever the deadline is", tv == fs(SEVEN), {"value": show(tv)[:80]}, nontrivial=True)
+            continue
         ctx.ob("C08.T5o", "reproc_wait [timeout %s, deadline %s]: timeout given to poll(2)" % (st.mon.get("tclass"), st.mon.get("dclass")),
                "the value handed to the OS is never a negative number other than -1 (which poll(2) would take for 'forever'); it is "
                "-1 only for an infinite wait, or an until-deadline wait without a deadline; a finite or until-deadline wait with a "
                "deadline is bounded (>= 0)", ok, {"value": show(tv)[:80]}, nontrivial=True)
     ctx.floor("C08.T5o", 5)
+    ctx.floor("C08.T5e", 2)
     # ETIMEDOUT provenance: with pipe_poll as an outcome model
     def o_pipe_poll(I2, fn, n, args, st):
         outs = []
